@@ -24,9 +24,13 @@ Local Notation "x /! y" := (div N x y) (at level 40, left associativity).
 Variable M : nat.
 
 (* ---- a chain of non-negative factors: f_t (i, j) couples position t with t+1 ---- *)
+(* a vector of M values, tabulated once (the Go code fills alpha / beta column by column; under
+   call-by-value evaluation this keeps the recursions below linear in the length of the chain) *)
+Definition tabn (g : nat -> A) : nat -> A :=
+  let l := map g (seq 0 M) in fun j => nth j l (zero N).
 (* one forward step: alpha_{t+1}(j) = sum_i alpha_t(i) f_t(i,j) *)
 Definition c_step (a : nat -> A) (f : nat -> nat -> A) : nat -> A :=
-  fun j => gsum N M (fun i => a i *! f i j).
+  tabn (fun j => gsum N M (fun i => a i *! f i j)).
 (* forward vector after t steps *)
 Fixpoint c_fwd (a : nat -> A) (fs : list (nat -> nat -> A)) (t : nat) : nat -> A :=
   match t, fs with
@@ -34,10 +38,10 @@ Fixpoint c_fwd (a : nat -> A) (fs : list (nat -> nat -> A)) (t : nat) : nat -> A
   | _, _ => a
   end.
 (* backward vector of the remaining factors: beta(i) = sum_j f(i,j) beta'(j), 1 at the end *)
-Fixpoint c_bwd (fs : list (nat -> nat -> A)) (i : nat) : A :=
+Fixpoint c_bwd (fs : list (nat -> nat -> A)) : nat -> A :=
   match fs with
-  | [] => one N
-  | f :: r => gsum N M (fun j => f i j *! c_bwd r j)
+  | [] => fun _ => one N
+  | f :: r => let b := c_bwd r in tabn (fun i => gsum N M (fun j => f i j *! b j))
   end.
 
 (* ---- the HMM as a chain: a_0(i) = Pi(i) e(i,0), f_t(i,j) = Tr(i,j) e(j,t+1) ---- *)
